@@ -55,16 +55,22 @@ class V:
         self.violations = []
         self.counters = collections.Counter()
         self.classes = set()
+        self.class_counts = collections.Counter()  # for batches: number of *cases* hitting a class
 
     def bad(self, sig, msg, **witness):
         if len(self.violations) < 8:
             self.violations.append({"sig": sig, "msg": msg, "witness": witness})
+
+    def hit(self, classes):
+        """Batch-friendly class accounting: call once per case with that case's classes."""
+        for c in classes:
+            self.class_counts[c] += 1
 
     def count(self, k, n=1):
         self.counters[k] += n
 
     def result(self, **kw):
         r = {"status": "ok", "violations": self.violations, "counters": dict(self.counters),
-             "classes": sorted(self.classes)}
+             "classes": sorted(self.classes), "class_counts": dict(self.class_counts)}
         r.update(kw)
         return r
